@@ -24,6 +24,12 @@ func getFullPath(filename string, appendExt bool) (string, error) {
 	return absPath, nil
 }
 
+// templateFullPath returns the absolute path of the file of a template,
+// layout or component name inside the configured template directory
+func templateFullPath(name string) (string, error) {
+	return filepath.Abs(joinPaths(userConfig.TemplateDir, name) + userConfig.TemplateExt)
+}
+
 func joinPaths(path1, path2 string) string {
 	return strings.TrimRight(path1, "/") + "/" + strings.TrimLeft(path2, "/")
 }
